@@ -68,13 +68,16 @@ static int op_sqrtrem(int argc, tok_t *a, out_t *o) {
   long ix[3];
   for (int i = 0; i < 3; i++) { ix[i] = tok_long(&a[i]); if (ix[i] < 0 || ix[i] > 3) return -1; }
   if (ix[0] == ix[1]) return -1;
-  mpz_t v[4]; mp_limb_t *p0[4];
-  for (int i = 0; i < 4; i++) { mpz_init(v[i]); tok_mpz(v[i], &a[4 + i]); p0[i] = v[i]->_mp_d; }
+  mpz_t v[4]; mp_limb_t *p0[4]; int a0[4];
+  for (int i = 0; i < 4; i++) { mpz_init(v[i]); tok_mpz(v[i], &a[4 + i]); p0[i] = v[i]->_mp_d; a0[i] = v[i]->_mp_alloc; }
   int e = GUARD(mpz_sqrtrem(v[ix[0]], v[ix[1]], v[ix[2]]));
   if (e) out_err(o, "sqrtneg");
   else
     for (int i = 0; i < 4; i++) {
-      out_mpz(o, v[i]); out_long(o, v[i]->_mp_alloc); out_long(o, v[i]->_mp_d != p0[i]);
+      /* the root block is replaced by free + allocate (sqrtrem.c:64-69): the allocator may hand the same address back,
+         so for root "moved" is reported as "ALLOC changed" */
+      out_mpz(o, v[i]); out_long(o, v[i]->_mp_alloc);
+      out_long(o, i == ix[0] ? v[i]->_mp_alloc != a0[i] : v[i]->_mp_d != p0[i]);
     }
   for (int i = 0; i < 4; i++) mpz_clear(v[i]);
   return 0;
